@@ -296,6 +296,10 @@ func newWriteCmdArgsFromInputInstances(cmd *cobra.Command, inputInstances []*inp
 			}
 		}
 		if c := x.Chord; c != nil {
+			// a chord without a degree has the zero Degree, which cannot even be printed
+			if _, ok := c.Degree.Semitone(); !ok {
+				return nil, errorx.Invalid("Chord %s requires degree: instance[%d]", c.Chord, i)
+			}
 			x, ok := cmap.GetChord(c.Chord)
 			if !ok {
 				return nil, errorx.NotFound("Chord %s", c.Chord)
